@@ -83,7 +83,7 @@ func init() {
 			}
 		},
 		ID:   "C12",
-		Rule: "rapid draws a Go type description (all scalar kinds, slices, string maps, pointers depth 0..3, interfaces, nested structs with tags drawn from {none, name, name+omitempty, omitempty, -, omit, inline/squash, padded, illegal combinations}, blanks around tag names and options; pool types incl. Folder/IsZeroer (structs and named int/float/bool/uint8 whose IsZero is not the Go zero test, value and pointer receivers)/registered folders/embedded/named types, unsupported kinds) materialised with reflect.StructOf, and a value of it (nil/empty/non-empty nillables, interfaces holding generic data, structs, pointers, structs that inline an interface again); 1 in 4 values is folded twice by one iterator, the visitor failing at a drawn event of the first fold, and the second fold is judged; deterministic part: every custom-folder pool type in every position (also after a fold that failed at event 1, 2, 3), re-entrant use of one map folder (maps of structs holding maps of the same type through an interface, 3 levels, several keys per level; plain, as field, inlined), two hand-written scenarios (an invalid option must not yield silent success; a type refused by an iterator and a type referring to it), and an omitempty matrix (6 IsZeroer types x IsZero true/false x {value, pointer, pointer to pointer, interface holding value / pointer} x 3 tags); oracle = independent executable model of the documented tag rules (gomodel.FoldModel) compared at value level; refusal cases must be errors; non-trivial = the type has at least one tag option or the case is a refusal; distinct by case hash",
+		Rule: "rapid draws a Go type description (all scalar kinds, slices, string maps, pointers depth 0..3, interfaces, nested structs with tags drawn from {none, name, name+omitempty, omitempty, -, omit, inline/squash, padded, illegal combinations}, blanks around tag names and options; pool types incl. Folder/IsZeroer (structs and named int/float/bool/uint8 whose IsZero is not the Go zero test, value and pointer receivers)/registered folders/embedded/named types, unsupported kinds) materialised with reflect.StructOf, and a value of it (nil/empty/non-empty nillables, interfaces holding generic data, structs, pointers, structs that inline an interface again); 1 in 4 values is folded twice by one iterator, the visitor failing at a drawn event of the first fold, and the second fold is judged; deterministic part: every custom-folder pool type in every position (also after a fold that failed at event 1, 2, 3), re-entrant use of one map folder (maps of structs holding maps of the same type through an interface, 3 levels, several keys per level; plain, as field, inlined), two hand-written scenarios (an invalid option must not yield silent success; a type refused by an iterator and a type referring to it), and an omitempty matrix (8 IsZeroer types incl. a named string and a named slice x IsZero true/false x {value, pointer, pointer to pointer, interface holding value / pointer} x 3 tags); oracle = independent executable model of the documented tag rules (gomodel.FoldModel) compared at value level; refusal cases must be errors; non-trivial = the type has at least one tag option or the case is a refusal; distinct by case hash",
 		New:  func() any { return &GoCase{} },
 		Draw: func(t *rapid.T) any {
 			g := drawGoCase(t, gomodel.TypeCfg{Tags: true, Bad: rapid.IntRange(0, 5).Draw(t, "bad") == 5, Pool: true, FoldOnly: true, Arrays: true, Recursive: !genExcludedRecursive()}, gomodel.ValCfg{})
